@@ -201,5 +201,9 @@ class Filtered:
         if self._keep(str(construct)):
             self._rep.violation(rid, construct, msg, where)
 
+    def floor(self, rid, minimum):
+        """instance floors of the lender count the lender's obligations; the borrower states its own floor"""
+        return None
+
     def __getattr__(self, name):
         return getattr(self._rep, name)
